@@ -2,6 +2,7 @@
 C10 — helper lemmas (property theorems are in Props.lean).
 -/
 import PorepyVerif.C10.Model
+import PorepyVerif.C09.Props
 
 namespace PorepyVerif.C10
 
@@ -128,21 +129,25 @@ theorem newton_its_length [Add V] (cfg : Cfg) (tape : List (Iter V)) : ∀ (k : 
           exact ih _ _ (afterIteration_its_length cfg _ s h)
     · exact h
 
-theorem newton_not_both [Add V] (cfg : Cfg) (tape : List (Iter V)) (hok : TapeOk tape) : ∀ (k : Nat) (s : Sol V),
+theorem newton_not_both [Add V] (cfg : Cfg) (tape : List (Iter V)) (hok : NoBoth cfg tape) : ∀ (k : Nat) (s : Sol V),
     (newton cfg k tape s).fin ≠ .both := by
   induction tape with
   | nil => intro k s; unfold newton; simp only []; split <;> simp
   | cons it tape ih =>
     intro k s
-    have hit := hok it (List.mem_cons_self)
-    have hok' : TapeOk tape := fun x hx => hok x (List.mem_cons_of_mem _ hx)
+    have hok' : NoBoth cfg tape := hok.imp id (fun h x hx => h x (List.mem_cons_of_mem _ hx))
     unfold newton
     split
     · split
       · rename_i hd
         simp only []
         split
-        · rename_i hc; exact absurd ⟨hc, hd⟩ hit
+        · rename_i hc
+          rcases hok with h | h
+          · simp [h] at hc
+          · have hit := h it (List.mem_cons_self)
+            simp only [Bool.and_eq_true] at hc
+            exact absurd ⟨hc.1, hd⟩ hit
         · simp
       · split
         · simp
@@ -198,7 +203,7 @@ theorem stepRun_spec [Add V] (clk : Clock C) (cfg : Cfg) (r : Run V C) (tape : L
     (res.fin = .outOfTape ∧ r'.status = .outOfTape ∧ r'.last = .other ∧ r'.sol = res.sol ∧ r'.accepted = r.accepted ∧
         r'.acceptedT = r.acceptedT) ∨
     ((res.fin = .diverged ∨ res.fin = .maxIter) ∧ ∃ c2, clk.retry c1 = .ok c2 ∧ r'.sol = resetIterate res.sol ∧
-        r'.bc = (if cfg.bcRewind then bcRewind bc1 else bc1) ∧ r'.clock = c2 ∧ r'.accepted = r.accepted ∧
+        r'.bc = bcRewind bc1 ∧ r'.clock = c2 ∧ r'.accepted = r.accepted ∧
         r'.acceptedT = r.acceptedT ∧ r'.status = statusOf clk c2 ∧ r'.last = .retried) ∨
     ((res.fin = .diverged ∨ res.fin = .maxIter) ∧ ∃ e, clk.retry c1 = .error e ∧ r'.status = .raised e ∧
         r'.last = .other ∧ r'.sol = res.sol ∧ r'.accepted = r.accepted ∧ r'.acceptedT = r.acceptedT) := by
@@ -373,7 +378,7 @@ theorem inv_runAll [Add V] (clk : Clock C) (cfg : Cfg) (v0 : V) (hIt : 0 < cfg.n
 
 /-- with well-formed tapes no solve ever ends with both flags -/
 theorem last_ne_both [Add V] (clk : Clock C) (cfg : Cfg) (tapes : List (List (Iter V)))
-    (hok : ∀ t ∈ tapes, TapeOk t) : ∀ r : Run V C, r.last ≠ .both → (runAll clk cfg r tapes).last ≠ .both := by
+    (hok : ∀ t ∈ tapes, NoBoth cfg t) : ∀ r : Run V C, r.last ≠ .both → (runAll clk cfg r tapes).last ≠ .both := by
   induction tapes with
   | nil => intro r h; exact h
   | cons t ts ih =>
@@ -398,7 +403,7 @@ theorem last_ne_both [Add V] (clk : Clock C) (cfg : Cfg) (tapes : List (List (It
 
 theorem runAll_ends [Add V] (clk : Clock C) (cfg : Cfg) (inv : C → Prop) (μ : C → Nat) (hT : Terminating clk inv μ)
     (tapes : List (List (Iter V))) :
-    (∀ t ∈ tapes, TapeOk t ∧ cfg.maxIt < t.length) →
+    (∀ t ∈ tapes, NoBoth cfg t ∧ cfg.maxIt < t.length) →
     ∀ r : Run V C,
       (r.status = .running ∨ r.status = .finished ∨ ∃ e, r.status = .raised e) →
       (r.status = .running ∨ r.status = .finished → inv r.clock) →
@@ -414,7 +419,7 @@ theorem runAll_ends [Add V] (clk : Clock C) (cfg : Cfg) (inv : C → Prop) (μ :
     · exact Or.inr h
   | cons t ts ih =>
     intro hok r hs hinv hrun
-    have hok' : ∀ t ∈ ts, TapeOk t ∧ cfg.maxIt < t.length := fun x hx => hok x (List.mem_cons_of_mem _ hx)
+    have hok' : ∀ t ∈ ts, NoBoth cfg t ∧ cfg.maxIt < t.length := fun x hx => hok x (List.mem_cons_of_mem _ hx)
     rw [runAll_cons]
     by_cases hr : r.status = .running
     case neg =>
@@ -508,31 +513,47 @@ theorem simpleClock_terminating' (p : SCParams) : Terminating (simpleClock p) (s
           rw [ht]; omega
     · cases hret
 
-/-! ### the time manager rewinds on a rejected step -/
+/-! ### the time manager (C09's model) rewinds on a rejected step -/
 
-theorem tm_correct_time (p : TM.Params) (s s' : TM.State) (h : TM.correct p s = .ok s') :
-    s'.time = s.time ∧ s'.timeIndex = s.timeIndex ∧ s'.recompNum = s.recompNum := by
-  unfold TM.correct at h
-  simp only [] at h
-  split at h
-  · cases h
-  · have := Except.ok.inj h
-    subst this
-    exact ⟨rfl, rfl, rfl⟩
+theorem c09_correct_time (p : C09.Params) (s : C09.TM) :
+    (C09.correct p s).1.time = s.time ∧ (C09.correct p s).1.timeIndex = s.timeIndex ∧
+      (C09.correct p s).1.recompNum = s.recompNum := by
+  unfold C09.correct
+  simp only []
+  split <;> exact ⟨rfl, rfl, rfl⟩
 
-theorem tm_retry_rewinds' (p : TM.Params) (s s' : TM.State) (h : TM.retry p (TM.advance s) = .ok s') :
+theorem tm_retry_rewinds' (p : C09.Params) (s s' : C09.TM)
+    (h : (tmClock p).retry ((tmClock p).advance s) = .ok s') :
     s'.time = s.time ∧ s'.timeIndex = s.timeIndex ∧ s'.recompNum = s.recompNum + 1 := by
-  unfold TM.retry at h
+  simp only [tmClock] at h
   split at h
   · cases h
   · split at h
-    · split at h
-      · cases h
-      · obtain ⟨h1, h2, h3⟩ := tm_correct_time p _ s' h
-        simp only [TM.advance] at h1 h2 h3
-        refine ⟨?_, ?_, h3⟩
-        · rw [h1]; grind
-        · rw [h2]; omega
+    · rename_i s2 r heq
+      have := Except.ok.inj h
+      subst this
+      unfold C09.computeTimeStep at heq
+      simp only [Bool.not_true, Bool.false_and, Bool.false_eq_true, if_false] at heq
+      split at heq
+      · rename_i hc; simp_all
+      · split at heq
+        · split at heq
+          · cases heq
+          · have h1 := c09_correct_time p
+              { C09.increaseTimeIndex (C09.increaseTime s) with
+                time := (C09.increaseTimeIndex (C09.increaseTime s)).time - (C09.increaseTimeIndex (C09.increaseTime s)).dt,
+                timeIndex := (C09.increaseTimeIndex (C09.increaseTime s)).timeIndex - 1,
+                dt := (C09.increaseTimeIndex (C09.increaseTime s)).dt * p.recompFactor,
+                recompNum := (C09.increaseTimeIndex (C09.increaseTime s)).recompNum + 1,
+                idx := if (C09.increaseTimeIndex (C09.increaseTime s)).aboutToHit then
+                  (C09.increaseTimeIndex (C09.increaseTime s)).idx - 1 else (C09.increaseTimeIndex (C09.increaseTime s)).idx }
+            rw [heq] at h1
+            simp only [C09.increaseTimeIndex, C09.increaseTime] at h1
+            obtain ⟨h1, h2, h3⟩ := h1
+            refine ⟨?_, ?_, h3⟩
+            · rw [h1]; grind
+            · rw [h2]; omega
+        · cases heq
     · cases h
 
 /-! ### boundary values (repaired failure hook) -/
@@ -566,8 +587,8 @@ theorem bcinv_start (clk : Clock C) (cfg : Cfg) (v0 : V) (c0 : C) (hTs : 0 < cfg
   refine ⟨rfl, ?_, rfl⟩
   simp only [startRun, initBc, List.length_cons, List.length_nil]; omega
 
-theorem bcinv_step [Add V] (clk : Clock C) (cfg : Cfg) (t0 : Rat) (hTs : 0 < cfg.nTs) (hrw : cfg.bcRewind = true)
-    (r : Run V C) (tape : List (Iter V)) (hok : TapeOk tape) (hr : BcInv cfg t0 r) :
+theorem bcinv_step [Add V] (clk : Clock C) (cfg : Cfg) (t0 : Rat) (hTs : 0 < cfg.nTs)
+    (r : Run V C) (tape : List (Iter V)) (hok : NoBoth cfg tape) (hr : BcInv cfg t0 r) :
     BcInv cfg t0 (stepRun clk cfg r tape) := by
   by_cases hrun : r.status = .running
   case neg => rw [stepRun_not_running clk cfg r tape hrun]; exact hr
@@ -595,15 +616,15 @@ theorem bcinv_step [Add V] (clk : Clock C) (cfg : Cfg) (t0 : Rat) (hTs : 0 < cfg
   · constructor; intro h; rw [hst] at h; rcases h with h | h <;> cases h
   · constructor
     intro _
-    rw [hbc, hrw, if_pos rfl, hbl, haccT, hacc, hn]
+    rw [hbc, hbl, haccT, hacc, hn]
     simp only [List.cons_append, List.take_succ_cons, bcRewind, List.head?_cons, List.tail_cons,
       Nat.add_sub_cancel, List.take_take, List.length_take]
     refine ⟨trivial, by omega, ?_⟩
     congr 1; omega
   · constructor; intro h; rw [hst] at h; rcases h with h | h <;> cases h
 
-theorem bcinv_runAll [Add V] (clk : Clock C) (cfg : Cfg) (t0 : Rat) (hTs : 0 < cfg.nTs) (hrw : cfg.bcRewind = true)
-    (tapes : List (List (Iter V))) (hok : ∀ t ∈ tapes, TapeOk t) :
+theorem bcinv_runAll [Add V] (clk : Clock C) (cfg : Cfg) (t0 : Rat) (hTs : 0 < cfg.nTs)
+    (tapes : List (List (Iter V))) (hok : ∀ t ∈ tapes, NoBoth cfg t) :
     ∀ r : Run V C, BcInv cfg t0 r → BcInv cfg t0 (runAll clk cfg r tapes) := by
   induction tapes with
   | nil => intro r h; exact h
@@ -611,6 +632,197 @@ theorem bcinv_runAll [Add V] (clk : Clock C) (cfg : Cfg) (t0 : Rat) (hTs : 0 < c
     intro r h
     rw [runAll_cons]
     exact ih (fun x hx => hok x (List.mem_cons_of_mem _ hx)) _
-      (bcinv_step clk cfg t0 hTs hrw r t (hok t List.mem_cons_self) h)
+      (bcinv_step clk cfg t0 hTs r t (hok t List.mem_cons_self) h)
+
+/-! ### the number of iterations of one solve -/
+
+theorem newton_k_bounds [Add V] (cfg : Cfg) (tape : List (Iter V)) : ∀ (k : Nat) (s : Sol V),
+    k ≤ (newton cfg k tape s).k ∧ (newton cfg k tape s).k ≤ max k (cfg.maxIt + 1) ∧
+    (newton cfg k tape s).k ≤ k + tape.length ∧
+    ((newton cfg k tape s).fin = .maxIter → k ≤ cfg.maxIt + 1 → (newton cfg k tape s).k = cfg.maxIt + 1) := by
+  induction tape with
+  | nil =>
+    intro k s
+    unfold newton
+    refine ⟨Nat.le_refl _, by simp only []; omega, by simp, ?_⟩
+    simp only []
+    split
+    · intro h; cases h
+    · intro _ _; omega
+  | cons it tape ih =>
+    intro k s
+    unfold newton
+    split
+    · rename_i hk
+      split
+      · refine ⟨by simp only []; omega, by simp only []; omega, by simp only [List.length_cons]; omega, ?_⟩
+        simp only []; split <;> (intro h; cases h)
+      · split
+        · refine ⟨by simp only []; omega, by simp only []; omega, by simp only [List.length_cons]; omega, ?_⟩
+          intro h; cases h
+        · simp only []
+          obtain ⟨h1, h2, h3, h4⟩ := ih (k + 1) (afterIteration cfg it.inc s)
+          refine ⟨by omega, by omega, by simp only [List.length_cons]; omega, ?_⟩
+          intro hf _; exact h4 hf (by omega)
+    · rename_i hk
+      refine ⟨Nat.le_refl _, by simp only []; omega, by simp only []; omega, ?_⟩
+      intro _ h; simp only []; omega
+
+/-- the loop logs exactly one "iter" and one "check" event per iteration -/
+theorem newton_evs_length [Add V] (cfg : Cfg) (tape : List (Iter V)) : ∀ (k : Nat) (s : Sol V),
+    (newton cfg k tape s).evs.length = 2 * ((newton cfg k tape s).k - k) := by
+  induction tape with
+  | nil => intro k s; unfold newton; simp
+  | cons it tape ih =>
+    intro k s
+    unfold newton
+    split
+    · split
+      · simp
+      · split
+        · simp
+        · simp only [List.length_append, List.length_cons, List.length_nil]
+          rw [ih]
+          have := (newton_k_bounds cfg tape (k + 1) (afterIteration cfg it.inc s)).1
+          omega
+    · simp
+
+/-! ### the faithful clock: simulation by C09's time loop -/
+
+/-- the C10 run over `tmClock p` and a C09 run are in the same state of the time manager -/
+def Sim (r : Run V C09.TM) (r9 : C09.Run) : Prop :=
+  (r.status = .running ∧ r9.status = .running ∧ r.clock = r9.tm ∧ r.acceptedT = r9.accepted) ∨
+  (r.status = .finished ∧ r9.status = .finished ∧ r.clock = r9.tm ∧ r.acceptedT = r9.accepted) ∨
+  (∃ e e', r.status = .raised e ∧ r9.status = .raised e') ∨
+  (∃ e e', r.status = .crashed e ∧ r9.status = .crashed e')
+
+theorem statusOf_tm (p : C09.Params) (c : C09.TM) :
+    (statusOf (tmClock p) c = .running ∧ C09.statusOf p c = .running) ∨
+    (statusOf (tmClock p) c = .finished ∧ C09.statusOf p c = .finished) := by
+  unfold statusOf C09.statusOf
+  simp only [tmClock]
+  by_cases h : C09.finalTimeReached p c = true
+  · right; simp [h]
+  · left; simp [h]
+
+theorem sim_of_status (p : C09.Params) (r : Run V C09.TM) (r9 : C09.Run) (c : C09.TM)
+    (h1 : r.status = statusOf (tmClock p) c) (h2 : r9.status = C09.statusOf p c) (h3 : r.clock = c) (h4 : r9.tm = c)
+    (h5 : r.acceptedT = r9.accepted) : Sim r r9 := by
+  rcases statusOf_tm p c with ⟨a, b⟩ | ⟨a, b⟩
+  · exact Or.inl ⟨by rw [h1, a], by rw [h2, b], by rw [h3, h4], h5⟩
+  · exact Or.inr (Or.inl ⟨by rw [h1, a], by rw [h2, b], by rw [h3, h4], h5⟩)
+
+theorem sim_step [Add V] (p : C09.Params) (cfg : Cfg) (r : Run V C09.TM) (r9 : C09.Run) (tape : List (Iter V))
+    (hok : NoBoth cfg tape) (hlen : cfg.maxIt < tape.length) (h : Sim r r9) :
+    ∃ o, Sim (stepRun (tmClock p) cfg r tape) (C09.stepRun p r9 o) := by
+  by_cases hrun : r.status = .running
+  case neg =>
+    refine ⟨.failed, ?_⟩
+    rw [stepRun_not_running _ cfg r tape hrun]
+    have h9 : r9.status ≠ .running := by
+      rcases h with ⟨a, _⟩ | ⟨_, b, _⟩ | ⟨_, _, _, b⟩ | ⟨_, _, _, b⟩
+      · exact absurd a hrun
+      all_goals (rw [b]; simp)
+    have : C09.stepRun p r9 .failed = r9 := by
+      unfold C09.stepRun
+      split
+      · rename_i h'; exact absurd h' h9
+      · rfl
+    rw [this]; exact h
+  obtain ⟨h9, hclk, hacc9⟩ : r9.status = .running ∧ r.clock = r9.tm ∧ r.acceptedT = r9.accepted := by
+    rcases h with ⟨_, b, c, d⟩ | ⟨a, _⟩ | ⟨_, _, a, _⟩ | ⟨_, _, a, _⟩
+    · exact ⟨b, c, d⟩
+    all_goals (rw [hrun] at a; cases a)
+  have hspec := stepRun_spec (tmClock p) cfg r tape hrun
+  simp only [] at hspec
+  have hnb := newton_not_both cfg tape hok 0 r.sol
+  have hno := newton_not_outOfTape cfg tape 0 r.sol (by omega)
+  have hadv : (tmClock p).advance r.clock = C09.increaseTimeIndex (C09.increaseTime r9.tm) := by rw [hclk]; rfl
+  have htime : (tmClock p).time ((tmClock p).advance r.clock) = (C09.increaseTimeIndex (C09.increaseTime r9.tm)).time := by
+    rw [hadv]; rfl
+  rw [hadv] at hspec
+  rcases hspec with ⟨_, c2, hc2, _, _, hclk', _, haccT, hst, _⟩ | ⟨_, e, he, hst, _⟩ | ⟨hb, _⟩ | ⟨ho, _⟩ |
+      ⟨_, c2, hc2, _, _, hclk', _, haccT, hst, _⟩ | ⟨_, e, he, hst, _⟩
+  · -- accepted
+    refine ⟨.converged ((newton cfg 0 tape r.sol).k : Int), ?_⟩
+    simp only [tmClock] at hc2
+    unfold C09.stepRun
+    rw [h9]; simp only []
+    split at hc2
+    · rename_i hconst
+      have := Except.ok.inj hc2; subst this
+      rw [if_pos hconst]
+      exact sim_of_status p _ _ _ hst rfl hclk' rfl (by rw [haccT, hacc9]; rfl)
+    · rename_i hconst
+      rw [if_neg hconst]
+      split at hc2
+      · rename_i s2 ret heq
+        have := Except.ok.inj hc2; subst this
+        rw [heq]
+        exact sim_of_status p _ _ _ hst rfl hclk' rfl (by rw [haccT, hacc9]; rfl)
+      · cases hc2
+  · -- the accept hook raised
+    refine ⟨.converged ((newton cfg 0 tape r.sol).k : Int), ?_⟩
+    simp only [tmClock] at he
+    unfold C09.stepRun
+    rw [h9]; simp only []
+    split at he
+    · cases he
+    · rename_i hconst
+      rw [if_neg hconst]
+      split at he
+      · cases he
+      · rename_i s2 e' heq
+        rw [heq]
+        exact Or.inr (Or.inr (Or.inr ⟨e, e', hst, rfl⟩))
+  · exact absurd hb hnb
+  · exact absurd ho hno
+  · -- rejected, recomputed
+    refine ⟨.failed, ?_⟩
+    simp only [tmClock] at hc2
+    unfold C09.stepRun
+    rw [h9]; simp only []
+    split at hc2
+    · cases hc2
+    · rename_i hconst
+      rw [if_neg hconst]
+      split at hc2
+      · rename_i s2 ret heq
+        have := Except.ok.inj hc2; subst this
+        rw [heq]
+        exact sim_of_status p _ _ _ hst rfl hclk' rfl (by rw [haccT, hacc9])
+      · cases hc2
+  · -- rejected, raised
+    refine ⟨.failed, ?_⟩
+    simp only [tmClock] at he
+    unfold C09.stepRun
+    rw [h9]; simp only []
+    split at he
+    · rename_i hconst
+      rw [if_pos hconst]
+      exact Or.inr (Or.inr (Or.inl ⟨e, _, hst, rfl⟩))
+    · rename_i hconst
+      rw [if_neg hconst]
+      split at he
+      · cases he
+      · rename_i s2 e' heq
+        rw [heq]
+        exact Or.inr (Or.inr (Or.inl ⟨e, e', hst, rfl⟩))
+
+theorem sim_runAll [Add V] (p : C09.Params) (cfg : Cfg) (tapes : List (List (Iter V)))
+    (hok : ∀ t ∈ tapes, NoBoth cfg t ∧ cfg.maxIt < t.length) :
+    ∀ (r : Run V C09.TM) (r9 : C09.Run), Sim r r9 →
+      ∃ os : List C09.Outcome, os.length = tapes.length ∧ Sim (runAll (tmClock p) cfg r tapes) (C09.runFrom p r9 os) := by
+  induction tapes with
+  | nil => intro r r9 h; exact ⟨[], rfl, h⟩
+  | cons t ts ih =>
+    intro r r9 h
+    obtain ⟨o, ho⟩ := sim_step p cfg r r9 t (hok t List.mem_cons_self).1 (hok t List.mem_cons_self).2 h
+    obtain ⟨os, hl, hs⟩ := ih (fun x hx => hok x (List.mem_cons_of_mem _ hx)) _ _ ho
+    exact ⟨o :: os, by simp [hl], by rw [runAll_cons]; exact hs⟩
+
+theorem sim_start (p : C09.Params) (cfg : Cfg) (v0 : V) :
+    Sim (startRun (tmClock p) cfg v0 (C09.init p) : Run V C09.TM) (C09.startRun p) :=
+  sim_of_status p _ _ (C09.init p) rfl rfl rfl rfl rfl
 
 end PorepyVerif.C10
